@@ -376,7 +376,9 @@ impl Monitor for KvMonitor {
                 return None;
             }
             (Expect::Panic(want), Some(p)) => {
-                if p != *want {
+                // outside a contract every storage instruction must panic; which of several
+                // applicable reasons comes first is not the property's business
+                if p != *want && *want != P::ExpectedInternalContext {
                     return Some(("storage-panic".into(), format!("storage-panic:{opn}:{p:?}"), format!("step {step}: {opn} panicked with {p:?}, the key-value model expects {want:?}")));
                 }
                 return None;
